@@ -74,6 +74,7 @@ def phase2(sel):
                 print(sid, p, "exit", c, first[:150] or herr[:150], flush=True)
         finally:
             sh(f"git -C {REPO} checkout -- .")
+            sh(f"git -C {REPO} clean -fdq src")
             sh(f"rm -rf {ROOT}/replays")
         detected = [p for p, v in checks.items() if v["exit"] == 1]
         meta = dict(id=sid, breaks_property=prop, confirmed=dict(applies=r.get("applies"), builds=r.get("build_ok"), baseline_tests_pass_fail=r.get("tests_pass_fail"),
